@@ -230,6 +230,30 @@ def main(tier="quick", seed=0, replay=None):
                     for (mode, k, sd) in [(0, 0, 0), (1, 1, 0), (2, rng.randint(2, 7), rng.randint(1, 10 ** 9))]:
                         cases.append(c03.session_case(mode, k, sd, 0, 0, chunk, text, iface=64))
                         metas.append({"r1": r1, "n1": name, "r2": r2, "n2": n2, "same": same, "across": across})
+    # strings whose interned name needs escapes, against the string that SPELLS that
+    # interned name: two different strings, hence two different symbols, whatever is
+    # already in the symbol table (string->symbol route only: these are not reader names)
+    def sym_encode(name):
+        out = ""
+        for i, ch in enumerate(name):
+            c = ord(ch)
+            if ch == "\\":
+                out += "\\x5c;"
+            elif (i == 0 and is_initial(c)) or (i > 0 and is_subsequent(c)):
+                out += ch
+            else:
+                out += "\\x%x;" % c
+        return out
+    esc_names = [" foo", "12", "a b", "(x)", "#t", "'q", "1+", "+", "a\\b", "x y z", "\u03bb x", ".5"]
+    for name in esc_names:
+        spelled = sym_encode(name)
+        for (n1, n2, same) in [(name, spelled, False), (spelled, name, False), (name, name, True), (spelled, spelled, True)]:
+            for across in (True, False):
+                text = route_program("string->symbol", n1, "string->symbol", n2, across, rng.randint(0, 12))
+                npairs += 1
+                for (mode, k, sd) in [(0, 0, 0), (1, 1, 0), (2, rng.randint(2, 7), rng.randint(1, 10 ** 9))]:
+                    cases.append(c03.session_case(mode, k, sd, 0, 0, rng.choice([0, 1024]), text, iface=64))
+                    metas.append({"r1": "string->symbol", "n1": n1, "r2": "string->symbol", "n2": n2, "same": same, "across": across})
     C.log("[C18] %d conversion cases, %d route sessions" % (len(c65), len(cases)))
     t0 = time.time()
     lines = C.run_impl(exe, cases, timeout=3000)
